@@ -32,7 +32,8 @@ for _suffix, _flags in (('simd', ''), ('nosimd', '-DRKCOMMON_NO_SIMD')):
 PROP = dict(
     rule='EXHAUSTIVE: all 2^32 float bit patterns through rcp, rsqrt, rcp_safe, sign, deg2rad, cvt_uint32 and '
          'cvt_uint32(linear_to_srgb) (the last two in ascending float order), and all 2^32 indices through '
-         'makeRandomColor, each in the SIMD and in the RKCOMMON_NO_SIMD build, against double-precision oracles; '
+         'makeRandomColor, and ALL (a,b) pairs of uint16_t, int16_t, uint8_t, int8_t through divRoundUp (integer oracle; for '
+         'types narrower than int the statement holds without a representability precondition), each in the SIMD and in the RKCOMMON_NO_SIMD build, against double-precision oracles; '
          'non-trivial = the enumerated value lies in the domain the statement quantifies over '
          '(2^-126<=|x|<2^126 for rcp, additionally x>0 for rsqrt, finite for rcp_safe, non-NaN for sign and the '
          'packing, everything for deg2rad/makeRandomColor); distinct by construction.  '
@@ -45,10 +46,11 @@ PROP = dict(
          'equal seeds; ranges so narrow that the per-step scale is subnormal are a separate *_tiny_range property, '
          'which fails on the unchanged tree - notes/C07.md); non-trivial = arguments not all equal and at least one argument on a boundary '
          'of its type (grid value, remainder 0/1/b-1, a=max-b, edge seed/engine); distinct by hash of the case',
+    # + 2 builds x (divRoundUp all pairs: u16 65536*65535 + i16 32768*32767 = 5368610816) = 74826186764
     # 2 builds x (rcp 4227858432 + rsqrt 2113929216 + rcp_safe 4278190080 + sign 4278190082 + deg2rad 2^32 +
     # 2 x packing 4278190082 + makeRandomColor 2^32) = 64088965132 when every sweep ran to completion; the
     # rapidcheck part adds ~5e5 (quick).  A floor just below the exact sweep total makes a missing / aborted sweep VACUOUS.
-    floor=dict(quick=64088965132, thorough=64088965132),
+    floor=dict(quick=74826186764, thorough=74826186764),
     exhaustive=True,
     parallel=10,
     assumptions=TRUST + [
